@@ -347,8 +347,9 @@ def replay_in_fresh_process(prop, path, timeout=300):
 # ---------------------------------------------------------------------------------------------
 
 
-def finish(prop, tier, engine, agg, info, t0, coverage_extra, assumptions, rule, level="exploration",
-           shrink_budget=20.0, max_shrunk=6):
+def report(prop, engine, agg, shrink_budget=20.0, max_shrunk=6):
+    """Turn the violations of a batch into KNOWN-FINDING / VIOLATION lines: match known findings,
+    minimise, write the replay file, replay it in a fresh process. -> dict"""
     known = load_known(prop)
     lines = []
     n_viol = 0
@@ -384,6 +385,18 @@ def finish(prop, tier, engine, agg, info, t0, coverage_extra, assumptions, rule,
         lines.append("violation: %s -- %s (seen in %d run(s), first at run index %d, minimised with %d re-executions)"
                      % (sig, vs[0]["message"], v["count"], v["index"], tests))
         lines.append("VIOLATION property=%s replay=%s" % (prop, path))
+    return {"lines": lines, "n_viol": n_viol, "n_known": n_known, "harness": harness, "reported": reported}
+
+
+def finish(prop, tier, engine, agg, info, t0, coverage_extra, assumptions, rule, level="exploration",
+           shrink_budget=20.0, max_shrunk=6, reports=None):
+    if reports is None:
+        reports = [report(prop, engine, agg, shrink_budget, max_shrunk)]
+    lines = [ln for r in reports for ln in r["lines"]]
+    n_viol = sum(r["n_viol"] for r in reports)
+    n_known = sum(r["n_known"] for r in reports)
+    harness = [h for r in reports for h in r["harness"]]
+    reported = [x for r in reports for x in r["reported"]]
     wall = time.time() - t0
     cov = {
         "evaluations": agg.evaluations,
